@@ -549,6 +549,37 @@ fire('gen3-eq-zips-values', ['C08'], ['GEN-3'], 'DFAState.__eq__ pairs arc targe
 silent('s-gen3-eq-all-by-label', ['C08'], 'DFAState.__eq__ written with all() over label-keyed lookups',
        (GEN, "        for label, next_ in self.arcs.items():\n            if next_ is not other.arcs.get(label):\n                return False\n        return True", "        return all(next_ is other.arcs.get(label) for label, next_ in self.arcs.items())"))
 
+# TREE-10 position lookup returns what it located
+fire('tree10-prefers-next-leaf', ['C11'], ['TREE-10'], 'an empty leaf at the queried position yields the following leaf instead (rt5-C11)',
+     (TREE, "                except AttributeError:\n                    return element\n", "                except AttributeError:\n                    if not element.value and position == element.start_pos:\n                        next_leaf = element.get_next_leaf()\n                        if next_leaf is not None and next_leaf.start_pos == position:\n                            return next_leaf\n                    return element\n"))
+silent('s-tree10-named-child', ['C11'], 'the located child is named differently and the recursion bounds are computed in locals',
+       (TREE, "            index = int((lower + upper) / 2)\n            element = self.children[index]\n            if position <= element.end_pos:\n                return binary_search(lower, index)\n            else:\n                return binary_search(index + 1, upper)",
+        "            middle = int((lower + upper) / 2)\n            candidate = self.children[middle]\n            if position <= candidate.end_pos:\n                return binary_search(lower, middle)\n            return binary_search(middle + 1, upper)"))
+
+# EXC-2 unpickled object validated
+fire('exc2-no-type-test', ['C17'], ['EXC-2'], 'the unpickled object is used as an entry without a type test (F19 reverted)',
+     (CACHE, "        if not isinstance(module_cache_item, _NodeCacheItem):\n            # A damaged or foreign file can be a valid pickle of something else.\n            return None\n", ""))
+silent('s-exc2-test-in-else', ['C17'], 'the type test sits at the top of the else branch',
+       (CACHE, "        if not isinstance(module_cache_item, _NodeCacheItem):\n            # A damaged or foreign file can be a valid pickle of something else.\n            return None\n", ""),
+       (CACHE, "    else:\n        _set_cache_item(hashed_grammar, path, module_cache_item)\n        LOG.debug('pickle loaded: %s', path)", "    else:\n        if not isinstance(module_cache_item, _NodeCacheItem):\n            return None\n        _set_cache_item(hashed_grammar, path, module_cache_item)\n        LOG.debug('pickle loaded: %s', path)"))
+
+# NORM-12 None-able indentation attributes (F20)
+fire('norm12-implicit-adds-to-none', ['C20'], ['NORM-12'], 'ImplicitNode adds a blank to an indentation that may be None (F20 reverted, site 1)',
+     (PEP8, " \\\n                and self.indentation is not None:\n            self.indentation += ' '", ":\n            self.indentation += ' '"))
+fire('norm12-comment-loop-len-none', ['C20'], ['NORM-12'], 'the comment dedent loop measures an indentation that may be None (F20 reverted, site 2)',
+     (PEP8, "                        if n.indentation is None or len(indentation) > len(n.indentation):", "                        if len(indentation) > len(n.indentation):"))
+fire('norm12-compare-len-none', ['C20'], ['NORM-12'], 'continuation lines are compared with an expected indentation that may be None (F20 reverted, site 3)',
+     (PEP8, "                    elif should_be_indentation is None:\n                        # With tabs there is no visual indentation to compare with.\n                        pass\n", ""))
+fire('norm12-hanging-in-vertical', ['C20'], ['NORM-12'], 'a hanging bracket inside a visual indentation adds to None (F20 reverted, site 4)',
+     (PEP8, "            if parent_indentation is None:\n                # Inside a visual indentation that tabs cannot express.\n                self.bracket_indentation = self.indentation = None\n            else:\n                self.bracket_indentation = parent_indentation \\\n                    + config.closing_bracket_hanging_indentation\n                self.indentation = parent_indentation + config.indentation\n",
+      "            self.bracket_indentation = parent_indentation \\\n                + config.closing_bracket_hanging_indentation\n            self.indentation = parent_indentation + config.indentation\n"))
+
+# NORM-11 per-line state of the prefix splitter (F21)
+fire('norm11-bom-offset-leaks', ['C20', 'C13', 'C09'], ['NORM-11'], 'the zero-width BOM correction is applied on every line of the prefix (F21 reverted)',
+     (PREFIX, "            column = -start\n            # The BOM has no width, but only the first line contains it.\n            bom = False\n", "            column = -start\n"))
+silent('s-norm11-first-line-flag', ['C20', 'C13', 'C09'], 'the BOM correction is expressed with a first-line flag',
+       (PREFIX, "            column = -start\n            # The BOM has no width, but only the first line contains it.\n            bom = False\n", "            column, bom = -start, False\n"))
+
 # TOK-3 typestate
 fire('tok3-comment-drops-prefix', ['C01', 'C09'], ['TOK-3'], 'a comment inside brackets replaces the pending prefix instead of extending it',
      (TOK, "                else:\n                    additional_prefix = prefix + token\n            elif token in triple_quoted:", "                else:\n                    additional_prefix = token\n            elif token in triple_quoted:"))
